@@ -25,7 +25,9 @@ def bdays(d0, d1):
 
 def gen_config(rng, alpha_kinds=("fixed", "single"), allow_fail=True):
     """One configuration (plain dict, JSON-able)."""
-    d0 = rng.choice([18267, 18267, 18269, 18288, 18289, 18290, 18293, 18317, 18271, 18292, 18270])   # Jan 6, 8, 27-29, Feb 1 (Sat), Feb 25, Fri Jan 10, Fri Jan 31 (month end), Thu Jan 9 2020
+    d0 = rng.choice([18267, 18267, 18269, 18288, 18289, 18290, 18293, 18317, 18271, 18292, 18270,
+                     18449, 18451, 18473, 18474, 18456])   # + Mon Jul 6, Wed Jul 8, Thu Jul 30, Fri Jul 31 (month end), Mon Jul 13 2020 (summer time in New York)
+    _unused = None   # Jan 6, 8, 27-29, Feb 1 (Sat), Feb 25, Fri Jan 10, Fri Jan 31 (month end), Thu Jan 9 2020
     nb = rng.randint(3, 11)
     d1 = d0
     while len(bdays(d0, d1)) < nb:
